@@ -34,6 +34,13 @@ package upstream
 // ---- C04: a successful Connect under mustSecure leaves a session that reports itself secure
 // ---- C16: a successful Connect leaves a connection
 //@ func (ups *Socket) Connect
+// C18: connecting does not rewrite the configured address (the scheme that selected the transport must still be
+// there for the next attempt: reconnect after a lost session, retry after a failure): the function's own stores
+// go to the connection it opens and to the user info it blanks, and to objects it allocates itself (the local
+// copy of the address it edits for logging)
+//@   property C18, C04
+//@   modifies ups.Connection, (&ups.Address.URL).User
+//@   ownstores
 //@   implements (github.com/bokysan/socketace/v2/internal/client/upstream.Upstream).Connect
 //@   property C05, C04
 //@   callsite NewClientConnection#1 (arg1 cert.TlsConfig) require arg1 == manager                       :session_handshake_gets_the_callers_certificate_manager
@@ -42,6 +49,13 @@ package upstream
 //@   property C04, C16
 //@   ensures err == nil && mustSecure ==> sessionOf(ups.Connection) != nil && sessionOf(ups.Connection).Secure()   :required_security_is_met_or_no_session
 //@ func (ups *Http) Connect
+// C18: connecting does not rewrite the configured address (the scheme that selected the transport must still be
+// there for the next attempt: reconnect after a lost session, retry after a failure): the function's own stores
+// go to the connection it opens and to the user info it blanks, and to objects it allocates itself (the local
+// copy of the address it edits for logging)
+//@   property C18, C04
+//@   modifies ups.Connection, (&ups.Address.URL).User
+//@   ownstores
 //@   property C01
 //@   implements (github.com/bokysan/socketace/v2/internal/client/upstream.Upstream).Connect
 //@   property C05, C04
@@ -52,6 +66,13 @@ package upstream
 //@   property C04, C16
 //@   ensures err == nil && mustSecure ==> sessionOf(ups.Connection) != nil && sessionOf(ups.Connection).Secure()   :required_security_is_met_or_no_session
 //@ func (ups *Packet) ConnectPacket
+// C18: connecting does not rewrite the configured address (the scheme that selected the transport must still be
+// there for the next attempt: reconnect after a lost session, retry after a failure): the function's own stores
+// go to the connection it opens and to the user info it blanks, and to objects it allocates itself (the local
+// copy of the address it edits for logging)
+//@   property C18, C04
+//@   modifies ups.Connection, (&ups.Address.URL).User
+//@   ownstores
 //@   property C05, C04
 // C05: the key derived from the shared secret is a key the AES packet cipher accepts (and the same derivation as
 // the server's: same salt rule, iteration count and length), so an endpoint protected by a secret admits the
@@ -65,6 +86,13 @@ package upstream
 //@   property C04, C16
 //@   ensures err == nil && mustSecure ==> sessionOf(ups.Connection) != nil && sessionOf(ups.Connection).Secure()   :required_security_is_met_or_no_session
 //@ func (ups *Dns) Connect
+// C18: connecting does not rewrite the configured address (the scheme that selected the transport must still be
+// there for the next attempt: reconnect after a lost session, retry after a failure): the function's own stores
+// go to the connection it opens and to the user info it blanks, and to objects it allocates itself (the local
+// copy of the address it edits for logging)
+//@   property C18, C04
+//@   modifies ups.Connection, (&ups.Address.URL).User
+//@   ownstores
 //@   implements (github.com/bokysan/socketace/v2/internal/client/upstream.Upstream).Connect
 //@   property C05, C04
 //@   callsite NewClientConnection#1 (arg1 cert.TlsConfig) require arg1 == manager                       :session_handshake_gets_the_callers_certificate_manager
@@ -73,6 +101,13 @@ package upstream
 //@   property C04, C16
 //@   ensures err == nil && mustSecure ==> sessionOf(ups.Connection) != nil && sessionOf(ups.Connection).Secure()   :required_security_is_met_or_no_session
 //@ func (ups *InputOutput) Connect
+// C18: connecting does not rewrite the configured address (the scheme that selected the transport must still be
+// there for the next attempt: reconnect after a lost session, retry after a failure): the function's own stores
+// go to the connection it opens and to the user info it blanks, and to objects it allocates itself (the local
+// copy of the address it edits for logging)
+//@   property C18, C04
+//@   modifies ups.Connection, (&ups.Address.URL).User, heap(crypto/tls.Config.InsecureSkipVerify)
+//@   ownstores
 //@   implements (github.com/bokysan/socketace/v2/internal/client/upstream.Upstream).Connect
 //@   property C05, C04
 //@   callsite NewClientConnection#1 (arg1 cert.TlsConfig) require arg1 == manager                       :session_handshake_gets_the_callers_certificate_manager
